@@ -88,6 +88,7 @@ func init() {
 			"plus 4/32 runs of the REAL processes (e7): the `kvass coordinator` binary with a static shard file, its own discovery manager, explorer and API, three `kvass sidecar` binaries, a simulated Prometheus per shard and a target farm; targets are added/removed through the coordinator's configuration file and /-/reload; convergence is bounded in coordination cycles counted at a reverse proxy in front of the sidecar APIs, a wall-clock watchdog only makes a run inconclusive; " +
 			"a fitting target may stay unscraped in the judged state only if max-shard is reached and no shard has room for it next to what it holds (the property presupposes enough allowed shards; counted); one workload in six drains all targets early and refills late; " +
 			"real-process special cases (2/8): down-then-up - a target answers 503 from the start, the configuration is reloaded while it is down, then it serves again (bound 120 coordination cycles; the explorer's retry interval is 5 s of wall-clock time); " +
+			"one case in six runs in K8s mode (the simulated pods are listed and scaled by the real Kubernetes replicas/shard managers on a client-go fake) next to two more StatefulSets of the same selector; " +
 			"non-trivial = world with >= 2 shards at some time and >= 1 move or scale event; distinct = hash of the scenario",
 		Assumptions: []string{
 			"targets whose size equals a limit exactly (they fit nowhere yet are not 'larger than the limit') and initial placements of oversized targets are not generated",
@@ -103,10 +104,18 @@ func init() {
 			spec := GenSpec(r)
 			SanitizeInitial(&spec)
 			sc := GenWorkload(r, spec)
+			if idx%6 == 5 {
+				// the pods are listed and scaled by the real Kubernetes managers, next to two more StatefulSets
+				// of the same selector (an HA layout with several replicas)
+				sc.Spec.K8s, sc.Spec.K8sDecoys = true, true
+			}
 			root := ScratchRoot(w.Scratch, idx)
 			defer os.RemoveAll(root)
 			out := Run(sc, root, r.Int63())
 			res := &core.CaseResult{Sig: fmt.Sprintf("%x", core.HashString(fmt.Sprintf("%+v", sc)))}
+			if sc.Spec.K8s {
+				res.AddStat("runs_on_the_real_kubernetes_managers_next_to_two_other_statefulsets", 1)
+			}
 			judge("C03", sc, out, res, "")
 			res.Nontrivial = out.MaxShards >= 2 && (out.Moves > 0 || out.ScaleEvents > 0)
 			if len(res.Viol) > 0 {
